@@ -125,8 +125,10 @@ def gen(seed):
     for t in range(nth):
         ops = []
         for _ in range(rng.randint(2, 4)):
-            c = rng.weighted([("dump", 7), ("load", 4), ("dump_fault", 2), ("short", 2), ("load_shared", 2)])
+            c = rng.weighted([("dump", 7), ("load", 4), ("dump_fault", 2), ("short", 2), ("load_shared", 2), ("load_other", 3)])
             op = {"op": c, "obj": rng.below(nobj), "path": rng.below(2)}
+            if c == "load_other":
+                op["client"] = rng.below(3)
             if c == "dump_fault":
                 op["at"] = rng.below(4)
             if c == "short":
@@ -182,6 +184,9 @@ def execute(hist, spec, serial=False):
 
         disks = [dict() for _ in hist["clients"]]
         errors = []
+        # global order of events (the scheduler serialises the clients): a file another client
+        # has finished writing and is not writing again must load to what it holds
+        dump_started = {}  # path -> sequence number of the latest dump that started on it
 
         def V(key, detail):
             with lock_v:
@@ -211,8 +216,40 @@ def execute(hist, spec, serial=False):
                         else:
                             stats["conc_acked_loads_ok"] += 1
                         continue
+                    if c == "load_other":
+                        t2 = op.get("client", 0) % len(hist["clients"])
+                        if t2 == t:
+                            t2 = (t + 1) % len(hist["clients"])
+                        cands = sorted(p_ for p_, e_ in disks[t2].items() if e_["ack"] and not e_.get("busy"))
+                        if not cands:
+                            continue
+                        path2 = cands[op["path"] % len(cands)]
+                        ent = dict(disks[t2][path2])
+                        s0 = dump_started.get(path2, -1)
+                        try:
+                            o = do_load(ent["kind"], ent["fmt"], path2)
+                            got = EVAL[ent["kind"]](o, 11) + "|" + type_sig(o, ent["kind"])
+                        except Abandon:
+                            raise
+                        except Exception as e:
+                            got = None
+                            err = "%s: %s" % (type(e).__name__, str(e)[:120])
+                        if dump_started.get(path2, -1) != s0:
+                            stats["conc_cross_loads_overtaken_by_a_writer_not_judged"] += 1
+                            continue  # its owner started to write it again meanwhile: anything goes
+                        if got is None:
+                            V("concurrent:%s:other-clients-acked-file-load-raise" % site(ent["kind"], ent["fmt"], "load"), "client %d step %d reads %s: %s" % (t, step, path2, err))
+                        elif got != ent["ref"]:
+                            V("concurrent:%s:other-clients-acked-file-load-mismatch" % site(ent["kind"], ent["fmt"], "load"), "client %d step %d reads %s" % (t, step, path2))
+                        else:
+                            stats["conc_acked_loads_ok"] += 1
+                            stats["conc_cross_client_loads_ok"] += 1
+                        continue
                     path = client_path(t, op["path"], EXT[fmt])
                     if c in ("dump", "short", "dump_fault"):
+                        dump_started[path] = sched.points
+                        if path in disk:
+                            disk[path]["busy"] = True
                         plan = {}
                         if hist.get("small_buffers"):
                             plan["buffer_size"] = 256
